@@ -18,3 +18,5 @@ UNITS += [TOK.unit_sweep_range_text(), TOK.unit_sweep_decimal_text(), TOK.unit_a
 UNITS += [R.unit_decimal_range_validate()]
 from contracts import ranges_dinit as RD
 UNITS += RD.units_decimal_range_init()
+from contracts import tools as TL
+UNITS += [TL.unit_tokenize_without_space(), TL.unit_generated_tokens(), TL.unit_token_text()]
